@@ -182,7 +182,6 @@ Proof.
     unfold step_bind in Hs. cbn [branch_at] in *. unfold B11, bind_b, l8.
     destruct (p_bind p); [|injection Hs as <-; auto].
     destruct (select_bind w0 nb) as [l|]; [|discriminate Hs].
-    destruct (get_other w1 l); [|discriminate Hs].
     rewrite Hb in Hs. destruct B10; try discriminate Hs. injection Hs as <-. cbn; auto.
   - (* destroy_repository *)
     pose proof (s9_frame p w1) as F. rewrite (ok_world _ _ _ Hs) in F. cbn in F.
